@@ -25,17 +25,19 @@ What is compared with what
     function definitions and the rest by a small scanner written here.  Expected, from the abstract
     schema only: the Encode/Decode functions present are exactly those of the main-file messages
     whose bitproto (simple) name is in `names`, named `Encode<prefix><Outer..Inner>` for C and
-    `(m *<Outer..Inner>) Encode` for Go.  Compared between invocations: each kept function's text is
+    `(m *<Outer..Inner>) Encode` for Go (identifiers compared modulo case and underscores, because the
+    generator re-cases them; programs keep their names distinct modulo the same).  Compared between invocations: each kept function's text is
     identical to the one generated without -F at the same --endian; everything outside the
     Encode/Decode functions (structs, typedefs, enums, #defines, consts, Size/String methods, includes)
     is line-for-line the same as without -F (comments / blank lines ignored); the declaration items of
     the header / go file are also the same as in STANDARD mode (no -O), and their counts match the
     abstract schema; header prototypes and .c definitions agree one to one.
-    Name subsets: random subsets incl. nested messages, names that are prefixes / suffixes / case
-    variants of other message names (Frame / FrameHeader, Msg, ...), the same simple name in two
-    scopes, names of enums / aliases / imported messages / C-formatted names / unknown names (which
-    select nothing), duplicates, blanks after commas; with and without `c.name_prefix`; every
-    --endian value (and its absence) for c, some for go.
+    Name subsets: random subsets incl. nested messages, names that are prefixes / suffixes of other
+    message names (Frame / FrameHeader, Msg, Baa / MsgBaa ...), names that get re-cased in the output
+    (Msg_Baa, MSGBAA), the same simple name in two scopes, near misses (re-cased / language-formatted /
+    truncated names), names of enums / aliases / imported messages / unknown names (all of which
+    select nothing), duplicates, blanks around commas, an empty item; with and without
+    `c.name_prefix`; every --endian value (and its absence) for c, some for go.
 """
 from __future__ import annotations
 
@@ -707,7 +709,8 @@ def compare_filtered(fp: FilterProgram, lang: str, ref: Dict[str, Any], std: Opt
     want = expected_keys(fp, lang, names)
     have = sorted(fkey(lang, f[0]) for f in got["funcs"])
     if model_ok and have != want:
-        bad.append({"what": "set of Encode/Decode functions", "expected": [str(x) for x in want], "observed": [str(x) for x in have]})
+        bad.append({"what": "set of Encode/Decode functions", "expected": [str(x) for x in want],
+                    "observed": sorted(str(f[0]) for f in got["funcs"]), "compared": "identifiers modulo case and underscores"})
     refmap: Dict[Any, List[str]] = {}
     for f in ref["funcs"]:
         refmap.setdefault(f[0], []).append(f[1])
@@ -718,9 +721,6 @@ def compare_filtered(fp: FilterProgram, lang: str, ref: Dict[str, Any], std: Opt
         elif f[1] not in r:
             bad.append({"what": "function text differs from the one generated without -F", "function": str(f[0]),
                         **first_diff(r[0].split("\n"), f[1].split("\n"))})
-    if not model_ok:
-        # naming model not confirmed by the reference run: fall back to "selected by simple name" via the reference's own keys
-        pass
     if lang == "c":
         if got["crest"] != ref["crest"]:
             bad.append({"what": ".c text outside function definitions differs from -O without -F", **first_diff(ref["crest"], got["crest"])})
@@ -728,7 +728,8 @@ def compare_filtered(fp: FilterProgram, lang: str, ref: Dict[str, Any], std: Opt
             bad.append({"what": ".h declarations (non-prototype part) differ from -O without -F", **first_diff(ref["hrest"], got["hrest"])})
         hp = sorted(nk(p[0]) for p in got["protos"])
         if model_ok and hp != want:
-            bad.append({"what": "set of Encode/Decode prototypes in the header", "expected": [str(x) for x in want], "observed": hp})
+            bad.append({"what": "set of Encode/Decode prototypes in the header", "expected": [str(x) for x in want],
+                        "observed": sorted(p[0] for p in got["protos"]), "compared": "identifiers modulo case and underscores"})
         pnames = sorted(p[0] for p in got["protos"])
         dnames = sorted(f[0] for f in got["funcs"])
         if pnames != dnames:
